@@ -23,7 +23,10 @@ import (
 	"google.golang.org/protobuf/proto"
 )
 
-var vKeyNames = map[uint64]string{1: deploymentIDKey, 2: launchedKey, 3: bootstrappedKey, 4: electionKey, 5: regionsKey}
+var vKeyNames = map[uint64]string{1: deploymentIDKey, 2: launchedKey, 3: bootstrappedKey, 4: electionKey, 5: regionsKey,
+	// keys that are the image of the ordinary keys k9 / k7 under common textual encodings, or their neighbours under case, blanks,
+	// zero padding, JSON-sensitive characters (key ids 9101.. of the harness bijection; all valid UTF-8)
+	9101: "hex:6b39", 9102: "0x6b39", 9103: "azk=", 9104: "%6b9", 9105: "\\u006b9", 9106: "\"k9\"", 9107: "K9", 9108: "k9 ", 9109: "k09", 9110: "hex:6b37", 9111: "k9\\", 9112: "ké9"}
 
 type vCtx struct {
 	regions map[uint64][]byte // value id -> marshalled pb.Regions
